@@ -29,7 +29,7 @@ from . import c17gen
 from .c08 import _val, close, lean_val
 
 PROPS = ["MxlVerif.Props.C17"]
-SCRATCH = WORK / "c17"
+SCRATCH = WORK / f"c17-{os.getpid()}"  # per run: two checks in one checkout must not remove each other's files
 # IPython (pulled in by a dependency) keeps a history database in $IPYTHONDIR: parallel checks must not share it
 os.environ.setdefault("IPYTHONDIR", str(WORK / f"ipython-{os.getpid()}"))
 atexit.register(shutil.rmtree, WORK / f"ipython-{os.getpid()}", ignore_errors=True)  # runs after IPython's own hook
@@ -1242,7 +1242,7 @@ def check_glue(ctx, cases, Rs):
     todo = [(c, R["glue"]) for c, R in zip(cases, Rs) if "glue" in R]
     for c, R in zip(cases, Rs):
         if "glue_err" in R:
-            ctx.violation({"kind": c["kind"], "doc": c["doc"]}, R["glue_err"],
+            ctx.violation({k: c.get(k) for k in ("kind", "doc", "states", "watch", "stem", "raw", "finding")}, R["glue_err"],
                           "the module written by sbml.read could not be read back as a chain of add_* calls")
     Ms = driver.call_batch([{"op": "c17", "pmodel": g["pmodel"]} for _, g in todo]) if ctx.driver_ok else [None] * len(todo)
     for (c, g), M in zip(todo, Ms):
